@@ -104,6 +104,28 @@ def run_kani_unit(unit_dir, tier):
             raise Undecided('cargo kani did not complete (compile error / tool error): ' + out[-700:])
         if int(m.group(3)) != len(hs):
             raise Undecided('cargo kani ran %s harnesses, expected %d' % (m.group(3), len(hs)))
+        # a harness counts as REFUTED only when Kani names a failed check for it.  A CBMC crash / out-of-memory / kill (seen under load:
+        # several checks in parallel) also prints "Verification failed", and the parallel output interleaves harnesses, so every harness
+        # reported as failed is run AGAIN, alone, and classified from that run
+        confirmed = set()
+        crashy = bool(re.search(r'CBMC failed|out of memory|std::bad_alloc|Killed|SIGKILL', out, re.I))
+        if not crashy:
+            confirmed = set(failed)   # fast path: no sign of a tool crash anywhere in the output
+        for hn in (sorted(failed) if crashy else []):
+            try:
+                p1 = subprocess.run(['cargo', 'kani'] + cfg.get('flags', []) + ['--output-format=terse', '--harness', hn], cwd=sc, capture_output=True, text=True,
+                                    timeout=cfg.get('timeout_s', 1200), env=env, start_new_session=True)
+                o1 = p1.stdout + p1.stderr
+            except subprocess.TimeoutExpired:
+                raise Undecided('kani harness %s: the confirming single run timed out' % hn)
+            if re.search(r'VERIFICATION:- SUCCESSFUL', o1) and not re.search(r'VERIFICATION:- FAILED', o1):
+                continue   # the failure did not repeat: a tool crash in the parallel run
+            if re.search(r'VERIFICATION:- FAILED', o1) and re.search(r'Failed Checks:', o1) and not re.search(r'CBMC failed|out of memory|std::bad_alloc', o1, re.I):
+                confirmed.add(hn)
+                out += '\n' + o1
+                continue
+            raise Undecided('kani harness %s did not complete normally (no failed check named: tool crash / memory / kill): %s' % (hn, o1[-300:].replace('\n', ' | ')))
+        failed = confirmed
         res['assumptions'] = ['kani: ' + a for a in cfg.get('assumptions', [])]
         for h in hs:
             oid = '%s::kani::%s' % (unit, h.get('label', h['name']))
@@ -121,6 +143,8 @@ def run_kani_unit(unit_dir, tier):
                 # concrete counterexample for the replay file
                 cex = ''
                 try:
+                    if any(f.get('counterexample') is not None for f in res['failures']):
+                        raise RuntimeError('one concrete playback per run is enough')
                     pc = subprocess.run(['cargo', 'kani'] + cfg.get('flags', []) + ['-Z', 'concrete-playback', '--concrete-playback=print', '--harness', h['name']],
                                         cwd=sc, capture_output=True, text=True, timeout=600, env=env)
                     mc = re.search(r'Concrete playback unit test.*?```(.*?)```', pc.stdout + pc.stderr, re.S)
